@@ -25,6 +25,7 @@
 #  along with this program.  If not, see <https://www.gnu.org/licenses/>
 import os
 import sys
+from urllib.parse import urlparse
 
 
 def uri_from_env(env='CFLIB_URI', default='radio://0/80/2M/E7E7E7E7E7') -> str:
@@ -40,8 +41,11 @@ def address_from_env(env='CFLIB_URI', default=0xE7E7E7E7E7) -> int:
     except KeyError:
         return default
 
-    # Get the address part of the uri
-    address = uri.rsplit('/', 1)[-1]
+    # Get the address part of the uri: <scheme>://<dongle>/<channel>/<datarate>/<address>[?options]
+    parsed_path = urlparse(uri).path.strip('/').split('/')
+    if len(parsed_path) < 3:
+        return default
+    address = parsed_path[2]
     try:
         return int(address, 16)
     except ValueError:
